@@ -77,6 +77,9 @@ def plan_for(prop, tier, seed):
             P.add(e, *fams)
         for e in _edge_bw(seed, 24 if q else 96):
             P.add(e, "T1")
+        if q:
+            # one evicting multi-block build, edges only (T1 on 1536 slots: ~20 s)
+            P.add(bw("evict3", nfb=1, suffix="_n1"), "T1")
         if not q:
             for n in ("blk_1_1", "blk_2_1", "blk_2_2", "find_reset", "hard_lm"):
                 P.add(bw(n), *fams)
